@@ -163,3 +163,53 @@ class ZlibStub:
 
     def decompress(self, buf, wbits=15, bufsize=16384):
         return self._inflate(buf, wbits, 0)
+
+
+class EnumStub:
+    """Stand-in for an (Int)Enum class: calling it with a symbolic value case-splits over the declared members
+    (and raises ValueError for anything else, as the real constructor does); members pass through."""
+
+    def __init__(self, real, strict=True):
+        object.__setattr__(self, "_real", real)
+        object.__setattr__(self, "_strict", strict)
+
+    def __call__(self, x):
+        real = object.__getattribute__(self, "_real")
+        if not isinstance(x, SymInt):
+            return real(x)
+        for member in real:
+            if x == member.value:
+                return member
+        if object.__getattribute__(self, "_strict"):
+            raise ValueError(f"<sym> is not a valid {real.__name__}")
+        return real(0)
+
+    def __getattr__(self, k):
+        return getattr(object.__getattribute__(self, "_real"), k)
+
+    def __iter__(self):
+        return iter(object.__getattribute__(self, "_real"))
+
+
+class FlagStub:
+    """Stand-in for an IntFlag class applied to a symbolic value: `Flag(x) & Flag.member` is x & member.value."""
+
+    def __init__(self, real):
+        object.__setattr__(self, "_real", real)
+
+    class _Val:
+        def __init__(self, x):
+            self.x = x
+
+        def __and__(self, member):
+            return self.x & int(member.value if hasattr(member, "value") else member)
+
+        __rand__ = __and__
+
+    def __call__(self, x):
+        if isinstance(x, SymInt):
+            return FlagStub._Val(x)
+        return object.__getattribute__(self, "_real")(x)
+
+    def __getattr__(self, k):
+        return getattr(object.__getattribute__(self, "_real"), k)
